@@ -140,9 +140,9 @@ pub trait ScopeOps {
     fn x_deallocate(&self, ptr: usize, l: Layout, via: Via, entry: u8);
     fn x_grow(&self, ptr: usize, old: Layout, new: Layout, zeroed: bool, via: Via, entry: u8) -> R<(usize, usize)>;
     fn x_shrink(&self, ptr: usize, old: Layout, new: Layout, via: Via, entry: u8) -> R<(usize, usize)>;
-    fn x_alloc_layout(&self, l: Layout, dyn_: bool) -> R<usize>;
-    fn x_alloc_sized(&self, e: Elem, dyn_: bool) -> R<usize>;
-    fn x_alloc_slice(&self, e: Elem, len: usize, dyn_: bool) -> R<usize>;
+    fn x_alloc_layout(&self, l: Layout, mode: u8) -> R<usize>;
+    fn x_alloc_sized(&self, e: Elem, mode: u8) -> R<usize>;
+    fn x_alloc_slice(&self, e: Elem, len: usize, mode: u8) -> R<usize>;
     fn x_shrink_slice(&self, e: Elem, ptr: usize, old_len: usize, new_len: usize) -> Option<usize>;
     fn x_prepare(&self, l: Layout, dyn_: bool) -> R<(usize, usize)>;
     fn x_commit(&self, l: Layout, range: (usize, usize), rev: bool, dyn_: bool) -> usize;
@@ -299,28 +299,39 @@ where
     fn x_shrink(&self, ptr: usize, old: Layout, new: Layout, via: Via, entry: u8) -> R<(usize, usize)> {
         with_entry!(self, via, entry, |a| res(unsafe { a.shrink(nn(ptr), old, new) }))
     }
-    fn x_alloc_layout(&self, l: Layout, dyn_: bool) -> R<usize> {
-        if dyn_ {
-            let d: &dyn BumpAllocatorCore = &*self;
-            d.try_allocate_layout(l).map(|p| p.as_ptr() as usize).map_err(|_| ())
-        } else {
-            self.try_allocate_layout(l).map(|p| p.as_ptr() as usize).map_err(|_| ())
+    fn x_alloc_layout(&self, l: Layout, mode: u8) -> R<usize> {
+        // mode 0: try_ method, 1: through dyn BumpAllocatorCore, 2: panicking twin, 3: panicking twin through dyn
+        match mode {
+            1 => {
+                let d: &dyn BumpAllocatorCore = &*self;
+                d.try_allocate_layout(l).map(|p| p.as_ptr() as usize).map_err(|_| ())
+            }
+            2 => Ok(self.allocate_layout(l).as_ptr() as usize),
+            3 => {
+                let d: &dyn BumpAllocatorCore = &*self;
+                Ok(d.allocate_layout(l).as_ptr() as usize)
+            }
+            _ => self.try_allocate_layout(l).map(|p| p.as_ptr() as usize).map_err(|_| ()),
         }
     }
-    fn x_alloc_sized(&self, e: Elem, dyn_: bool) -> R<usize> {
-        for_elem!(e, T => if dyn_ {
-            let d: &dyn BumpAllocatorCore = &*self;
-            d.try_allocate_sized::<T>().map(|p| p.as_ptr() as usize).map_err(|_| ())
-        } else {
-            self.try_allocate_sized::<T>().map(|p| p.as_ptr() as usize).map_err(|_| ())
+    fn x_alloc_sized(&self, e: Elem, mode: u8) -> R<usize> {
+        for_elem!(e, T => match mode {
+            1 => {
+                let d: &dyn BumpAllocatorCore = &*self;
+                d.try_allocate_sized::<T>().map(|p| p.as_ptr() as usize).map_err(|_| ())
+            }
+            2 => Ok(self.allocate_sized::<T>().as_ptr() as usize),
+            _ => self.try_allocate_sized::<T>().map(|p| p.as_ptr() as usize).map_err(|_| ()),
         })
     }
-    fn x_alloc_slice(&self, e: Elem, len: usize, dyn_: bool) -> R<usize> {
-        for_elem!(e, T => if dyn_ {
-            let d: &dyn BumpAllocatorCore = &*self;
-            d.try_allocate_slice::<T>(len).map(|p| p.as_ptr() as usize).map_err(|_| ())
-        } else {
-            self.try_allocate_slice::<T>(len).map(|p| p.as_ptr() as usize).map_err(|_| ())
+    fn x_alloc_slice(&self, e: Elem, len: usize, mode: u8) -> R<usize> {
+        for_elem!(e, T => match mode {
+            1 => {
+                let d: &dyn BumpAllocatorCore = &*self;
+                d.try_allocate_slice::<T>(len).map(|p| p.as_ptr() as usize).map_err(|_| ())
+            }
+            2 => Ok(self.allocate_slice::<T>(len).as_ptr() as usize),
+            _ => self.try_allocate_slice::<T>(len).map(|p| p.as_ptr() as usize).map_err(|_| ()),
         })
     }
     fn x_shrink_slice(&self, e: Elem, ptr: usize, old_len: usize, new_len: usize) -> Option<usize> {
